@@ -549,6 +549,43 @@ func (r *e1run) checkC03(si, k int) {
 
 // ---- cross-stream agreement (C04 last sentence, C02 "all streams cut at the same instant", C03 for renditions) ----
 
+// midCallback runs inside OnEncodeError, i.e. in user code the muxer calls in the middle of a Write. If requests can be
+// served at that moment (the muxer mutex is free), what they show is observable at one and the same time: all streams must
+// expose the same media sequence numbers and durations (C04), the writer being stopped inside the callback.
+func (r *e1run) midCallback(error) {
+	m := r.mi.m
+	if r.faulted || len(m.streams) < 2 || !m.mutex.TryLock() {
+		return // requests would block until the callback has returned
+	}
+	m.mutex.Unlock()
+	var lead *m3u.Media
+	for _, s := range m.streams {
+		if s.isLeading && s.hasContent() {
+			lead, _, _ = m3u.Parse(muxGet(m, mediaPlaylistPath(s.id)).Body.Bytes(), m3u.Options{})
+		}
+	}
+	if lead == nil {
+		return
+	}
+	for _, s := range m.streams {
+		if s.isLeading || !s.hasContent() {
+			continue
+		}
+		p, _, _ := m3u.Parse(muxGet(m, mediaPlaylistPath(s.id)).Body.Bytes(), m3u.Options{})
+		if p == nil {
+			continue
+		}
+		same := p.MediaSequence == lead.MediaSequence && len(p.Segments) == len(lead.Segments)
+		for i := 0; same && i < len(p.Segments); i++ {
+			same = p.Segments[i].DurationNS == lead.Segments[i].DurationNS && p.Segments[i].Gap == lead.Segments[i].Gap
+		}
+		if !same {
+			r.add("C04", "streams-differ-inside-callback", "inside OnEncodeError during write %d (requests are being served: the muxer mutex is free) stream %s lists media sequence numbers [%d,%d), the leading stream [%d,%d), or their durations differ; ops %s",
+				len(r.ops)-1, s.id, p.MediaSequence, p.MediaSequence+len(p.Segments), lead.MediaSequence, lead.MediaSequence+len(lead.Segments), r.opsString())
+		}
+	}
+}
+
 func (r *e1run) checkCrossStream(k int) {
 	st := r.steps[k]
 	if len(st.streams) < 2 {
